@@ -14,7 +14,7 @@ use std::sync::atomic::AtomicBool;
 use std::sync::Arc;
 use walkdir as wd;
 
-// NFILES (entries below the root), NNAME (bytes per file name), NEXT (configured extensions), EXTLEN (bytes per extension, <= 2)
+// NFILES (entries below the root), NNAME (bytes per file name), NEXT (configured extensions), EXTLEN (bytes per extension, <= 2), DEEP (0/1/2)
 include!("verif_bounds.rs");
 include!("verif_replay.rs");
 static mut RP_IDX: usize = 0;
@@ -80,6 +80,89 @@ fn stub_from_utf8(v: &[u8]) -> Result<&str, std::str::Utf8Error>
     Ok(unsafe { std::str::from_utf8_unchecked(v) })
 }
 
+/// std's word-at-a-time byte searches (alignment arithmetic, unbounded for CBMC) as plain loops
+fn stub_memchr(x: u8, text: &[u8]) -> Option<usize>
+{
+    let mut i = 0;
+    while i < text.len()
+    {
+        if text[i] == x
+        {
+            return Some(i);
+        }
+        i += 1;
+    }
+    None
+}
+fn stub_memrchr(x: u8, text: &[u8]) -> Option<usize>
+{
+    let mut i = text.len();
+    while i > 0
+    {
+        i -= 1;
+        if text[i] == x
+        {
+            return Some(i);
+        }
+    }
+    None
+}
+
+/// what the file system says about a path (std::path::Path::{is_file, is_dir, is_symlink, exists} are FFI): these
+/// follow links, as the real ones do
+unsafe fn model_kind_of(p: &std::path::Path) -> Option<u8>
+{
+    let b = p.as_os_str().as_encoded_bytes();
+    if b.len() == 2 && b[0] == ROOT[0] && b[1] == ROOT[1]
+    {
+        return Some(wd::KIND_DIR);
+    }
+    if b.len() < 4 || b[0] != ROOT[0] || b[1] != ROOT[1] || b[2] != b'/'
+    {
+        return None;
+    }
+    let mut f = 0;
+    while f < NFILES
+    {
+        let e = wd::MODEL.entries[f];
+        // the entry itself
+        if b.len() == 3 + e.len
+        {
+            let mut same = true;
+            let mut i = 0;
+            while i < e.len
+            {
+                if b[3 + i] != e.rel[i] { same = false; }
+                i += 1;
+            }
+            if same { return Some(e.kind); }
+        }
+        // its directory
+        if e.depth == 2 && b.len() == 5 && b[3] == e.rel[0] && b[4] == e.rel[1]
+        {
+            return Some(wd::KIND_DIR);
+        }
+        f += 1;
+    }
+    None
+}
+fn stub_path_is_file(p: &std::path::Path) -> bool
+{
+    unsafe { matches!(model_kind_of(p), Some(k) if k == wd::KIND_FILE || k == wd::KIND_LINK_TO_FILE) }
+}
+fn stub_path_is_dir(p: &std::path::Path) -> bool
+{
+    unsafe { matches!(model_kind_of(p), Some(k) if k == wd::KIND_DIR || k == wd::KIND_LINK_TO_DIR) }
+}
+fn stub_path_is_symlink(p: &std::path::Path) -> bool
+{
+    unsafe { matches!(model_kind_of(p), Some(k) if k == wd::KIND_LINK_TO_FILE || k == wd::KIND_LINK_TO_DIR) }
+}
+fn stub_path_exists(p: &std::path::Path) -> bool
+{
+    unsafe { matches!(model_kind_of(p), Some(k) if k != wd::KIND_ERR) }
+}
+
 const ROOT: &[u8] = b"/s";
 
 /// the characters a name or an extension is made of: letters in both cases, the dot, a character
@@ -140,6 +223,12 @@ fn bytes_eq(a: &[u8], b: &[u8]) -> bool
 #[kani::stub(std::alloc::dealloc, stub_dealloc)]
 #[kani::stub(std::fs::metadata, stub_metadata)]
 #[kani::stub(core::str::from_utf8, stub_from_utf8)]
+#[kani::stub(std::path::Path::is_file, stub_path_is_file)]
+#[kani::stub(std::path::Path::is_dir, stub_path_is_dir)]
+#[kani::stub(std::path::Path::is_symlink, stub_path_is_symlink)]
+#[kani::stub(std::path::Path::exists, stub_path_exists)]
+#[kani::stub(core::slice::memchr::memchr, stub_memchr)]
+#[kani::stub(core::slice::memchr::memrchr, stub_memrchr)]
 #[kani::stub(std::fs::Metadata::is_dir, stub_is_dir)]
 fn u_find()
 {
@@ -177,15 +266,17 @@ fn u_find()
         {
             let kind = sym_u8();
             kani::assume(kind <= wd::KIND_OTHER);
-            let deep = sym_bool();
+            // fixed per run: DEEP = 0 directly below the root, 1 inside the directory `ab`, 2 inside the hidden directory `.g`
+            // (a symbolic directory name on top of a symbolic file name is beyond what CBMC finishes in half an hour)
+            let deep = DEEP >= 1;
             let mut rel = [0u8; wd::MAX_REL];
             let mut len = 0;
             if deep
             {
-                rel[0] = sym_char();
-                kani::assume(rel[0] != b'.');
-                rel[1] = b'/';
-                len = 2;
+                rel[0] = if DEEP == 2 { b'.' } else { b'a' };
+                rel[1] = if DEEP == 2 { b'g' } else { b'b' };
+                rel[2] = b'/';
+                len = 3;
             }
             name_off[f] = len;
             let nl = NNAME;
